@@ -288,7 +288,21 @@ def uniform(ctx, name, ptypes, consts, tpaths, op, operand, extra=None, extra_al
       if not any(w.stmt is x for x in stmts):
         stmts.append(w.stmt)
     twice = [(a, b) for i, a in enumerate(stmts) for b in stmts[i + 1:] if not _exclusive(fi.node, a, b)]
-    if twice:
+    # two loops over *parts* of the container (slices, filters) may touch disjoint elements: not decided
+    partial = False
+    for a, b in twice[:1]:
+      for st_ in (a, b):
+        for lp_ in U.enclosing_loops(fi.node, st_):
+          if isinstance(lp_, ast.For):
+            it_ = U.expand_locals(fi.node, lp_.iter, at=lp_)
+            if any(isinstance(x, ast.Subscript) and isinstance(x.slice, ast.Slice) for x in ast.walk(it_)) or any(isinstance(x, (ast.ListComp, ast.GeneratorExp)) and x.generators[0].ifs for x in ast.walk(it_)) or \
+                any(isinstance(x, ast.Call) and dotted(x.func) in ('filter', 'itertools.islice', 'islice') for x in ast.walk(it_)):
+              partial = True
+    if twice and partial:
+      a, b = twice[0]
+      why_ = 'cannot classify: %s receives %s %s at line %d and at line %d, in loops over parts of the container; whether the parts overlap is not decided' % (cov.path_text(p), wop, wopd, a.lineno, b.lineno)
+      ctx.ob('UNIFORM/once/' + name, fi, b, False, why_, construct='%s: %s %s %s exactly once' % (tag, cov.path_text(p), wop, wopd), unknown=why_)
+    elif twice:
       a, b = twice[0]
       ctx.ob('UNIFORM/once/' + name, fi, b, False, '%s: %s receives %s %s at line %d and again at line %d (both run: the second loop walks a collection that still contains '
              'these events): the field moves by the operation applied twice while every other field moves once' % (
